@@ -59,3 +59,6 @@ Definition seq_quiet (s : seq) : bool :=
   not_running (sq_st s) && forallb (fun a => not_running (ac_st a)) (sq_acts s).
 Definition no_running_sequence (p : pln) : bool :=
   forallb (fun b => forallb seq_quiet (bk_seqs b)) (pl_blocks p).
+
+(* no block is Running *)
+Definition no_running_block (p : pln) : bool := forallb (fun b => not_running (bk_st b)) (pl_blocks p).
